@@ -8,7 +8,7 @@ use digital_test_runner::TestCase;
 pub const META_C15: Meta = Meta {
     id: "C15",
     level: "exploration",
-    rule: "Four monitors per case (profiles `flow`+`expand`+`virtual`, 0-5 declare statements, some programs using random with the seed pinned through the hook, ~40% static programs): (1) re-parse: the same text is parsed and bound 6 times in one process (fresh HashMap RandomState each time) - all TestCase values must be ==, with identical `signals` order and identical Display; a digest of (Display, signal order, row stream) is also written per case and the orchestrator compares the digests produced by two separate processes (the dev-profile and release-profile shards run the same cases); (2) re-iterate: 3 iterations of one &TestCase with fresh devices replaying one script give identical item streams and vars(); (2b) abandon: an iterator is dropped after a random number of steps (possibly inside a C/X expansion), the next full iteration must equal the first; (3) interleave: 2-4 iterators over one &TestCase, each with its own device, next() interleaved by round-robin / sequential / PRNG schedules - every stream equals the solo stream; (4) static: try_iter_static().is_ok() iff the model reads no outputs (scope rule of C11), and then its (inputs incl. changed, expected, line) stream equals the projection of every dynamic run against 4 devices (empty layout, all outputs unique numbers, all Z, permuted subset with X), error items at the same index. Non-trivial = >= 2 virtual signals, or >= 2 interleaved iterators with >= 3 rows each under a non-sequential schedule, or a static program with a C/X expansion.",
+    rule: "Four monitors per case (profiles `flow`+`expand`+`virtual`, 0-5 declare statements, some programs using random with the seed pinned through the hook, ~40% static programs): (1) re-parse: the same text is parsed and bound 6 times in one process (fresh HashMap RandomState each time) - all TestCase values must be ==, with identical `signals` order and identical Display; a digest of (Display, signal order, row stream) is also written per case and the orchestrator compares the digests produced by two separate processes (the dev-profile and release-profile shards run the same cases); (2) re-iterate: 3 iterations of one &TestCase with fresh devices replaying one script (one of them entered through the deprecated alias run_iter) give identical item streams, vars() and driver call logs; (2b) abandon: an iterator is dropped after a random number of steps (possibly inside a C/X expansion), the next full iteration must equal the first; (3) interleave: 2-4 iterators over one &TestCase, each with its own device, next() interleaved by round-robin / sequential / PRNG schedules - every stream equals the solo stream; (4) static: try_iter_static().is_ok() iff the model reads no outputs (scope rule of C11), and then its (inputs incl. changed, expected, line) stream equals the projection of every dynamic run against 4 devices (empty layout, all outputs unique numbers, all Z, permuted subset with X), error items at the same index; 6% of the cases carry a planted variable that is in scope, never assigned on the executed path and named like a device output (such a program reads no outputs), and the static stream consumed through step_by(2..4) must deliver every k-th item of the plain stream. Non-trivial = >= 2 virtual signals, or >= 2 interleaved iterators with >= 3 rows each under a non-sequential schedule, or a static program with a C/X expansion.",
     assumptions: &["identical device scripts give identical answers (pure function of call index and signal)"],
     quick_cases: 40000,
     thorough_cases: 500000,
@@ -47,6 +47,29 @@ fn static_stream(tc: &TestCase, seed: u64, cap: usize) -> Result<Result<Vec<Resu
             }
             Ok(v)
         }
+    });
+    digital_test_runner::verif_hooks::set_seed_override(None);
+    let _ = digital_test_runner::verif_hooks::take_draw_log();
+    r
+}
+
+/// The static stream consumed through `step_by(step)` (i.e. `nth`): positions 0, step, 2*step ...
+fn static_stream_stepped(tc: &TestCase, seed: u64, cap: usize, step: usize) -> Result<Vec<Result<StaticItem, String>>, PanicInfo> {
+    digital_test_runner::verif_hooks::set_seed_override(Some(seed));
+    let r = guarded(|| match tc.try_iter_static() {
+        Err(_) => vec![],
+        Ok(it) => it
+            .step_by(step)
+            .take(cap)
+            .map(|item| match item {
+                Ok(row) => Ok(StaticItem {
+                    line: row.line,
+                    inputs: row.inputs.iter().map(|e| (sidx(tc, e.signal), from_in(e.value), e.changed)).collect(),
+                    expected: row.expected.iter().map(|e| (sidx(tc, e.signal), from_exp(e.value))).collect(),
+                }),
+                Err(e) => Err(err_chain(&e)),
+            })
+            .collect(),
     });
     digital_test_runner::verif_hooks::set_seed_override(None);
     let _ = digital_test_runner::verif_hooks::take_draw_log();
@@ -209,13 +232,20 @@ pub fn c15(case_seed: u64, acc: &mut Acc) {
         viol!(Finding::new(p.signature(), format!("constructor panicked: {p:?}")));
     }
     for rep in 0..2 {
+        // the second repetition enters through the deprecated alias `run_iter`
+        ENTER_THROUGH_RUN_ITER.with(|c| c.set(rep == 1));
         let again = run_bound(if rep == 0 { tc } else { &tcs[1 + rep] }, &case.signals, &case.script, &opts);
+        ENTER_THROUGH_RUN_ITER.with(|c| c.set(false));
         acc.evaluations += 1;
         if format!("{:?}", again.0) != format!("{:?}", solo.0) {
             viol!(Finding::new("reiterate-constructor-differs", format!("{:?} vs {:?}", again.0, solo.0)));
         }
         if let Some(i) = same_items(&solo.3, &again.3) {
             viol!(Finding::new("reiterate-differs", format!("iteration #{} differs from the first at item {i}: {:?} vs {:?}", rep + 2, again.3.get(i).map(|s| &s.item), solo.3.get(i).map(|s| &s.item))));
+        }
+        if again.4 != solo.4 {
+            let k = (0..again.4.len().min(solo.4.len())).find(|&k| again.4[k] != solo.4[k]).unwrap_or(again.4.len().min(solo.4.len()));
+            viol!(Finding::new("reiterate-driver-calls-differ", format!("iteration #{} makes driver call #{k} {:?}, the first iteration {:?}", rep + 2, again.4.get(k), solo.4.get(k))));
         }
     }
     // ---------------- (2b) abandon an iterator part-way (also in the middle of a C/X
@@ -352,6 +382,24 @@ pub fn c15(case_seed: u64, acc: &mut Acc) {
                 }
             }
             acc.event("static_rows_compared_x4_devices", sitems.len() as u64);
+            // the static stream consumed through step_by / nth delivers the same items
+            if sitems.len() >= 3 && sitems.len() < 200 && sitems.iter().all(|i| i.is_ok()) {
+                let step = 2 + r.below(3);
+                match static_stream_stepped(tc, seed, 200, step) {
+                    Err(p) => viol!(Finding::new(p.signature(), format!("static iteration through step_by({step}) panicked: {p:?}"))),
+                    Ok(stepped) => {
+                        acc.evaluations += 1;
+                        let want: Vec<_> = sitems.iter().step_by(step).cloned().collect();
+                        if stepped != want {
+                            viol!(Finding::new(
+                                "static-adaptor-item-differs",
+                                format!("try_iter_static().step_by({step}) delivers {} items {:?}..., every {step}-th item of the plain stream is {:?}...", stepped.len(), stepped.first(), want.first()),
+                            ));
+                        }
+                        acc.event("static_step_by_streams_compared", 1);
+                    }
+                }
+            }
             let info = crate::scope::analyse(&case.program);
             static_expansion = !info.c_columns.is_empty()
                 || case.program.any_expr(&|_| false)
